@@ -266,6 +266,7 @@ pub fn in_reducer<R>(f: impl FnOnce() -> R) -> R {
 harness! { #[kani::unwind(6)] fn u_reduce_r2_m2() { u_reduce(2, 2, [E_NONE, E_NONE, E_NONE], [2, 2, 2]); } }
 harness! { #[kani::unwind(6)] fn u_reduce_r1_m1() { u_reduce(1, 1, [E_NONE, E_NONE, E_NONE], [2, 2, 2]); } }
 harness! { #[kani::unwind(6)] fn u_reduce_r3_m0() { u_reduce(3, 0, [E_NONE, E_NONE, E_NONE], [2, 2, 2]); } }
+harness! { #[kani::unwind(6)] fn u_reduce_r3_m2() { u_reduce(3, 2, [E_NONE, E_NONE, E_NONE], [2, 2, 2]); } }
 harness! { #[kani::unwind(6)] fn u_reduce_r3_m3() { u_reduce(3, 3, [E_NONE, E_NONE, E_NONE], [2, 2, 2]); } }
 harness! { #[kani::unwind(6)] fn u_reduce_r1_m1_task() { u_reduce(1, 1, [E_TASK, E_NONE, E_NONE], [OP_DISPATCH, 2, 2]); } }
 harness! { #[kani::unwind(6)] fn u_reduce_r1_m2_action_keep() { u_reduce(1, 2, [E_ACTION, E_NONE, E_NONE], [OP_KEEP, 2, 2]); } }
@@ -328,6 +329,7 @@ harness! { #[kani::unwind(6)] fn u_notify_s2_m2() { u_notify(2, 2); } }
 harness! { #[kani::unwind(6)] fn u_notify_s3_m0() { u_notify(3, 0); } }
 harness! { #[kani::unwind(6)] fn u_notify_s2_m3() { u_notify(2, 3); } }
 harness! { #[kani::unwind(6)] fn u_notify_s1_m1() { u_notify(1, 1); } }
+harness! { #[kani::unwind(6)] fn u_notify_s3_m3() { u_notify(3, 3); } }
 
 // -----------------------------------------------------------------------------------------
 // U-effect
